@@ -62,6 +62,9 @@ def jobs(tier):
     for ms in (("fifo", "hifo", "lifo"), ("hifo", "lifo", "lofo"), ("lofo", "hifo", "lifo"), ("lifo", "lofo", "fifo")):
         for code in ("BBS",) if tier == "quick" else ("BBS", "BBSS", "BIS"):
             js.append({"code": code, "schedule": {"2020": ms[0], "2021": ms[1], "2022": ms[2]}, "years": [2020, 2021, 2022], "tz": False, "sell_all": False})
+    # a long run of disposals against few lots, instants strictly increasing (no tie forks): state carried across many events
+    for m in ("hifo", "lifo") if tier == "quick" else METHODS:
+        js.append({"code": "BBSSSSS" if tier == "quick" else "BBSSSSSS", "schedule": {"2020": m}, "years": [2020], "tz": False, "sell_all": False, "strict": True})
     if tier == "thorough":
         four = _skeletons(4)
         for m in METHODS:
@@ -85,6 +88,7 @@ def jobs(tier):
 def bounds(tier):
     return {
         "history_length": "all skeletons over {BUY, INTEREST, SELL, MOVE-with-fee} of length 3 and selected of length 4" if tier == "quick" else "all skeletons of length 4 and selected of length 5",
+        "long_runs": "2 lots then %d disposals, instants strictly increasing (%s)" % ((5, "hifo, lifo") if tier == "quick" else (6, "4 methods")),
         "methods": list(METHODS),
         "schedules": "single method, every ordered pair (m1 from 2020, m2 from 2021), and four three-entry schedules (2020, 2021, 2022)",
         "amounts": "k*1e-11, k in [1, 1e20]",
@@ -104,7 +108,7 @@ def weight(spec):
 
 
 def describe(spec):
-    return "%s %s%s%s%s" % (spec["code"], ",".join("%s:%s" % kv for kv in sorted(spec["schedule"].items())), " tz" if spec["tz"] else "", " +sell-all" if spec["sell_all"] else "", " rows=9,10,100" if spec.get("rows") else "")
+    return "%s %s%s%s%s" % (spec["code"], ",".join("%s:%s" % kv for kv in sorted(spec["schedule"].items())), " tz" if spec["tz"] else "", " +sell-all" if spec["sell_all"] else "", " rows=9,10,100" if spec.get("rows") else "") + (" strictly-increasing" if spec.get("strict") else "")
 
 
 def run(S, spec):
@@ -120,6 +124,9 @@ def run(S, spec):
             s_["row"] = r_
     h = Hist(S, slots, years, tz=spec["tz"])
     n = len(slots)
+    if spec.get("strict"):
+        for i in range(1, n):
+            S.assume_cmp(h.t[i - 1], "<", h.t[i])
     lots = [i for i in range(n) if h.is_lot(i)]
     disp = [i for i in range(n) if h.is_out(i) or h.is_move(i)]
     if spec["sell_all"]:
